@@ -9,14 +9,14 @@ Import ListNotations.
 Open Scope string_scope.
 
 Inductive tag := TVis | TRet | TTypeMod | TAbstract | TQuery | TScope | TDoc | TChild | TType | TTypeString | TDir | TDefault
-               | TMult | TInit | TSetter | TGetter | TReadOnly | TStereo | TFrom | TTo.
+               | TMult | TInit | TSetter | TGetter | TReadOnly | TStereo | TFrom | TTo | TAgg.
 Inductive slot := SNoise (k v : string) | STag (t : tag).
 
 Definition tag_eqb (a b : tag) : bool :=
   match a, b with
   | TVis, TVis | TRet, TRet | TTypeMod, TTypeMod | TAbstract, TAbstract | TQuery, TQuery | TScope, TScope | TDoc, TDoc
   | TChild, TChild | TType, TType | TTypeString, TTypeString | TDir, TDir | TDefault, TDefault | TMult, TMult | TInit, TInit
-  | TSetter, TSetter | TGetter, TGetter | TReadOnly, TReadOnly | TStereo, TStereo | TFrom, TFrom | TTo, TTo => true
+  | TSetter, TSetter | TGetter, TGetter | TReadOnly, TReadOnly | TStereo, TStereo | TFrom, TFrom | TTo, TTo | TAgg, TAgg => true
   | _, _ => false
   end.
 
@@ -155,9 +155,42 @@ Definition inh_item (i : sinh) (t : tag) : option witem :=
 Definition tree_of_inh (i : sinh) : wnode :=
   WNode (si_id i) None (if si_real i then "Realization" else "Generalization") (items_of (tabs 1) (inh_item i) (si_layout i)) crlf.
 
+(* ---------------------------------------------------------------- associations: two ends, each with the class it is attached to *)
+
+Record send := { se_id : string; se_name : option string; se_class : list string; se_mult : string; se_agg : option string;
+                 se_vis : option string; se_getter : bool; se_setter : bool; se_const : bool; se_layout : list slot }.
+
+Definition end_item (from : bool) (e : send) (t : tag) : option witem :=
+  match t with
+  | TDir => Some (IField (tabs 2) "Direction" (if from then "0" else "1"))
+  | TType => ref_field (tabs 2) "EndModelElement" (se_class e)
+  | TMult => text_field (tabs 2) "multiplicity" (se_mult e)
+  | TAgg => match se_agg e with Some c => Some (IField (tabs 2) "aggregationKind" c) | None => None end
+  | TVis => match se_vis e with Some c => Some (IField (tabs 2) "visibility" c) | None => None end
+  | TGetter => flag_field (tabs 2) "providePropertyGetterMethod" (se_getter e)
+  | TSetter => flag_field (tabs 2) "providePropertySetterMethod" (se_setter e)
+  | TReadOnly => flag_field (tabs 2) "readOnly" (se_const e)
+  | _ => None
+  end.
+Definition tree_of_end (from : bool) (e : send) : wnode :=
+  WNode (se_id e) (se_name e) "AssociationEnd" (items_of (tabs 2) (end_item from e) (se_layout e)) (tabs 1).
+
+Record sassoc := { sx_id : string; sx_name : option string; sx_parent : option string; sx_doc : string;
+                   sx_from : send; sx_to : send; sx_layout : list slot }.
+
+Definition assoc_item (x : sassoc) (t : tag) : option witem :=
+  match t with
+  | TDoc => text_field (tabs 1) "documentation_plain" (sx_doc x)
+  | TFrom => Some (IChildren (tabs 1) "from" "" "" "" [tree_of_end true (sx_from x)])
+  | TTo => Some (IChildren (tabs 1) "to" "" "" "" [tree_of_end false (sx_to x)])
+  | _ => None
+  end.
+Definition tree_of_assoc (x : sassoc) : wnode :=
+  WNode (sx_id x) (sx_name x) "Association" (items_of (tabs 1) (assoc_item x) (sx_layout x)) crlf.
+
 (* ---------------------------------------------------------------- the diagram *)
 
-Inductive selem := EClass (c : sclass) | EPackage (p : spackage) | EInh (i : sinh)
+Inductive selem := EClass (c : sclass) | EPackage (p : spackage) | EInh (i : sinh) | EAssoc (x : sassoc)
                  | EOther (id : string) (name : option string) (ty : string) (parent : option string) (noise : list slot).
 
 (* an element that is only referred to (stereotype, data type, enclosing package ...): its name is what matters *)
@@ -170,6 +203,7 @@ Definition welem_of (e : selem) : welem :=
   | EClass c => {| we_parent := sc_parent c; we_node := tree_of_class c |}
   | EPackage p => {| we_parent := sk_parent p; we_node := tree_of_package p |}
   | EInh i => {| we_parent := si_parent i; we_node := tree_of_inh i |}
+  | EAssoc x => {| we_parent := sx_parent x; we_node := tree_of_assoc x |}
   | EOther id nm ty par noise => {| we_parent := par; we_node := WNode id nm ty (items_of (tabs 1) (fun _ => None) noise) crlf |}
   end.
 Definition welem_of_ref (r : sref) : welem :=
@@ -186,9 +220,9 @@ Definition encode_project (S : sdiagram) : db := encode_cdiagram (tree_of S).
 (* ---------------------------------------------------------------- SPECIFICATION: what the diagram stands for *)
 
 Definition elem_id (e : selem) : string :=
-  match e with EClass c => sc_id c | EPackage p => sk_id p | EInh i => si_id i | EOther id _ _ _ _ => id end.
+  match e with EClass c => sc_id c | EPackage p => sk_id p | EInh i => si_id i | EAssoc x => sx_id x | EOther id _ _ _ _ => id end.
 Definition elem_name (e : selem) : string :=
-  match e with EClass c => sc_name c | EPackage p => sk_name p | EInh _ => "" | EOther _ nm _ _ _ => ostr nm end.
+  match e with EClass c => sc_name c | EPackage p => sk_name p | EInh _ => "" | EAssoc x => ostr (sx_name x) | EOther _ nm _ _ _ => ostr nm end.
 
 (* NAME of the element with an id: shapes first, then the referenced elements (the rows in that order) *)
 Definition name_of (S : sdiagram) (id : string) : option string :=
@@ -271,10 +305,53 @@ Definition rinh_of (S : sdiagram) (i : sinh) : rinh :=
   {| ri_id := si_id i; ri_real := si_real i; ri_from := end_name S (si_from i); ri_from_id := last (si_from i) "";
      ri_to := end_name S (si_to i); ri_to_id := last (si_to i) "" |}.
 
+(* an association as the generator consumes it.  The two ends are read in the order they are written (sx_layout): an end
+   without multiplicity gets a default that depends on the association type known at that moment (aggregationKind of an
+   end read earlier), exactly as Association.ParseAssociation does *)
+Definition assoc0 (id name : string) : rassoc :=
+  {| as_id := id; as_name := name; as_type := "Association"; as_comment := "";
+     as_from := ""; as_from_id := ""; as_from_vis := "private"; as_from_static := false; as_from_const := false;
+     as_from_mult := "0..1"; as_from_getter := false; as_from_setter := false;
+     as_to := ""; as_to_id := ""; as_to_vis := "private"; as_to_static := false; as_to_const := false;
+     as_to_mult := "0..1"; as_to_getter := false; as_to_setter := false |}.
+
+Definition end_spec (S : sdiagram) (from : bool) (e : send) (a : rassoc) : rassoc :=
+  let nm := type_name S (se_class e) in
+  let a1 := if from then set_from a nm (last (se_class e) "") else set_to a nm (last (se_class e) "") in
+  let a2 := match se_agg e with
+            | Some c => if String.eqb c "66" then set_type a1 "Aggregation" else if String.eqb c "67" then set_type a1 "Composition" else a1
+            | None => a1
+            end in
+  let a3 := if negb (String.eqb (se_mult e) "") then set_end a2 from None None None (Some (se_mult e)) None None
+            else if from then (if String.eqb (as_type a2) "Composition" then set_end a2 true None None None (Some "1") None None else a2)
+            else (if negb (String.eqb (as_type a2) "Association") then set_end a2 false None None None (Some "0") None None else a2) in
+  let a4 := match se_vis e with
+            | Some c => if String.eqb c "68" then set_end a3 from None (Some true) None None None None
+                        else set_end a3 from (Some (vis_of_code c)) None None None None None
+            | None => a3
+            end in
+  let a5 := if se_getter e then set_end a4 from None None None None (Some true) None else a4 in
+  let a6 := if se_setter e then set_end a5 from None None None None None (Some true) else a5 in
+  if se_const e then set_end a6 from None None (Some true) None None None else a6.
+
+(* is the to-end written before the from-end? *)
+Fixpoint to_first (l : list slot) : bool :=
+  match l with
+  | [] => false
+  | STag TTo :: _ => true
+  | STag TFrom :: _ => false
+  | _ :: r => to_first r
+  end.
+
+Definition rassoc_of (S : sdiagram) (x : sassoc) : rassoc :=
+  let a0 := set_comment (assoc0 (sx_id x) (ostr (sx_name x))) (sx_doc x) in
+  if to_first (sx_layout x) then end_spec S true (sx_from x) (end_spec S false (sx_to x) a0)
+  else end_spec S false (sx_to x) (end_spec S true (sx_from x) a0).
+
 Definition rdiagram_of (S : sdiagram) : rdiagram :=
   {| rd_classes := flat_map (fun se => match snd se with EClass c => [(sc_id c, rclass_of S c)] | _ => [] end) (sd_shapes S);
      rd_packages := flat_map (fun se => match snd se with EPackage p => [(sk_id p, rpackage_of p)] | _ => [] end) (sd_shapes S);
-     rd_assocs := [];
+     rd_assocs := flat_map (fun se => match snd se with EAssoc x => [(sx_id x, rassoc_of S x)] | _ => [] end) (sd_shapes S);
      rd_inhs := flat_map (fun se => match snd se with EInh i => [(si_id i, rinh_of S i)] | _ => [] end) (sd_shapes S) |}.
 
 (* the class diagram the generator model (Model/Uml.v) works on *)
@@ -285,12 +362,18 @@ Definition cdiagram_of (S : sdiagram) : cdiagram := to_cdiagram (rdiagram_of S).
 Definition reserved_keys : list string :=
   ["visibility"; "returnType_0"; "typeModifier"; "abstract"; "query"; "scope"; "documentation_plain"; "type_0"; "type_string";
    "direction"; "defaultValue_string"; "multiplicity"; "initialValue_string"; "hasSetter"; "hasGetter"; "readOnly";
-   "fromModel_0"; "toModel_0"; "id"; "name"; "type"].
+   "fromModel_0"; "toModel_0"; "id"; "name"; "type";
+   "Direction"; "EndModelElement_0"; "aggregationKind"; "providePropertyGetterMethod"; "providePropertySetterMethod"].
 Definition reserved_parts : list string := ["child"; "stereotype"; "abstract"; "documentation_plain"].
 
 (* a text as the theorems of the text layer need it: plain, no braces, no ',', no blank at the ends, no apostrophe *)
 Definition txt (s : string) : bool :=
   plain s && no_char "," s && String.eqb (py_strip s) s && no_char "{" s && no_char "}" s.
+(* a VALUE (default, initial value, multiplicity, modifier, documentation): it may hold ',' -- the reader keeps the commas and
+   only drops a value of which nothing but commas and blanks is left *)
+Definition vtxt (s : string) : bool :=
+  plain s && String.eqb (py_strip s) s && no_char "{" s && no_char "}" s
+  && (String.eqb s "" || negb (String.eqb (py_strip (remove_char "," s)) "")).
 Definition ident (s : string) : bool := txt s && no_char ":" s && negb (String.eqb s "").
 Definition noise_key (k : string) : bool :=
   plain k && no_char SP k && no_char "," k && no_char "{" k && no_char "}" k && negb (String.eqb k "")
@@ -327,7 +410,7 @@ Definition layout_ok (f : tag -> option witem) (l : list slot) : bool :=
   && forallb (fun s => match s with SNoise k v => noise_key k && noise_val v | STag _ => true end) l
   && forallb (fun t => match f t with Some _ => has_tag t l | None => true end)
        [TVis; TRet; TTypeMod; TAbstract; TQuery; TScope; TDoc; TChild; TType; TTypeString; TDir; TDefault; TMult; TInit; TSetter; TGetter;
-        TReadOnly; TStereo; TFrom; TTo].
+        TReadOnly; TStereo; TFrom; TTo; TAgg].
 
 (* a type name survives CleanModifiersFromType unchanged *)
 Definition type_ok (t : string) : bool := txt t && String.eqb (clean_modifiers t) t && negb (String.eqb t "").
@@ -339,16 +422,16 @@ Definition tpath_ok (S : sdiagram) (ids : list string) : bool := path_ok S ids &
 Definition param_ok (S : sdiagram) (p : sparam) : bool :=
   ident (sp_id p) && txt (sp_name p) && no_char ":" (sp_name p)
   && match sp_basic p with Some s => type_ok s | None => negb (match sp_type p with [] => true | _ => false end) && tpath_ok S (sp_type p) end
-  && txt (sp_mod p) && txt (sp_default p) && txt (sp_mult p) && layout_ok (param_item p) (sp_layout p).
+  && vtxt (sp_mod p) && vtxt (sp_default p) && vtxt (sp_mult p) && layout_ok (param_item p) (sp_layout p).
 Definition code_ok (o : option string) : bool := match o with Some c => txt c && negb (String.eqb c "") && negb (prefixb dq c) | None => true end.
 Definition op_ok (S : sdiagram) (o : sop) : bool :=
   ident (so_id o) && ident (so_name o) && code_ok (so_vis o)
   && match so_ret o with [] => true | ids => tpath_ok S ids end
-  && txt (so_retmod o) && txt (so_doc o) && forallb (param_ok S) (so_params o) && layout_ok (op_item o) (so_layout o).
+  && vtxt (so_retmod o) && vtxt (so_doc o) && forallb (param_ok S) (so_params o) && layout_ok (op_item o) (so_layout o).
 Definition attr_ok (S : sdiagram) (a : sattr) : bool :=
   ident (sa_id a) && txt (sa_name a) && no_char ":" (sa_name a) && code_ok (sa_vis a)
   && match sa_type a with [] => true | ids => tpath_ok S ids end
-  && txt (sa_mod a) && txt (sa_mult a) && txt (sa_doc a) && txt (sa_init a) && layout_ok (attr_item a) (sa_layout a).
+  && vtxt (sa_mod a) && vtxt (sa_mult a) && vtxt (sa_doc a) && vtxt (sa_init a) && layout_ok (attr_item a) (sa_layout a).
 Definition member_ok (S : sdiagram) (m : smember) : bool :=
   match m with
   | MOp o => op_ok S o
@@ -357,7 +440,7 @@ Definition member_ok (S : sdiagram) (m : smember) : bool :=
   end.
 Definition class_ok (S : sdiagram) (c : sclass) : bool :=
   ident (sc_id c) && txt (sc_name c) && no_char ":" (sc_name c)
-  && forallb (fun i => ident i && known S i) (sc_stereos c) && txt (sc_doc c)
+  && forallb (fun i => ident i && known S i) (sc_stereos c) && vtxt (sc_doc c)
   && forallb (member_ok S) (sc_members c) && layout_ok (class_item c) (sc_layout c).
 Definition package_ok (S : sdiagram) (p : spackage) : bool :=
   ident (sk_id p) && ident (sk_name p)
@@ -368,11 +451,22 @@ Definition inh_ok (S : sdiagram) (i : sinh) : bool :=
   ident (si_id i) && negb (match si_from i with [] => true | _ => false end) && negb (match si_to i with [] => true | _ => false end)
   && path_ok S (si_from i) && path_ok S (si_to i) && layout_ok (inh_item i) (si_layout i).
 
+Definition name_ok (avoid : string) (nm : option string) : bool :=
+  match nm with Some n => txt n && no_char ":" n && negb (contains avoid n) | None => true end.
+Definition end_ok (S : sdiagram) (from : bool) (e : send) : bool :=
+  ident (se_id e) && negb (contains "readOnly" (se_id e)) && name_ok "readOnly" (se_name e)
+  && negb (match se_class e with [] => true | _ => false end) && path_ok S (se_class e)
+  && vtxt (se_mult e) && code_ok (se_agg e) && code_ok (se_vis e) && layout_ok (end_item from e) (se_layout e).
+Definition assoc_ok (S : sdiagram) (x : sassoc) : bool :=
+  ident (sx_id x) && negb (contains "documentation_plain" (sx_id x)) && name_ok "documentation_plain" (sx_name x)
+  && vtxt (sx_doc x) && end_ok S true (sx_from x) && end_ok S false (sx_to x) && layout_ok (assoc_item x) (sx_layout x).
+
 Definition sdiagram_ok (S : sdiagram) : bool :=
   forallb (fun se => match snd se with
                      | EClass c => class_ok S c
                      | EPackage p => package_ok S p
                      | EInh i => inh_ok S i
+                     | EAssoc x => assoc_ok S x
                      | EOther id nm ty _ noise =>
                          ident id && match nm with Some n => txt n && no_char ":" n | None => true end && ident ty
                          && negb (existsb (String.eqb ty) ["Class"; "Package"; "Association"; "Realization"; "Generalization"])
